@@ -112,6 +112,15 @@ def check(repo: Repo, rep: Report) -> None:
                "take_last_with_time and skip_last_with_time both keep (or both drop) the element whose age equals the duration")
     # take_with_time / skip_with_time split the source at one boundary: both arm their timer before subscribing the source, so
     # an element of a cold source placed exactly at the boundary meets the closed take gate and the open skip gate
+    rep.rule("X5-timeout-fallback", "timeout without a fallback fails: the fallback is `other or throw(...)`", floor=1)
+    tf_ = repo.fn("reactivex/operators/_timeout.py", "timeout_")
+    oth = [p_ for p_ in tf_.params if p_ == "other"]
+    defs_ = [n_.value for n_ in tf_.direct_nodes() if isinstance(n_, ast.Assign) and oth and u(n_.targets[0]) == oth[0]]
+    okf = any(isinstance(v_, ast.BoolOp) and isinstance(v_.op, ast.Or) and u(v_.values[0]) == oth[0] and isinstance(v_.values[-1], ast.Call) and call_name(v_.values[-1]) == "throw"
+              for v_ in defs_) or any(isinstance(v_, ast.IfExp) and call_name(v_.orelse if isinstance(v_.orelse, ast.Call) else v_.body) == "throw" for v_ in defs_)
+    rep.ob("X5-timeout-fallback", tf_, "other = other or throw(Exception('Timeout'))", okf,
+           "timeout() without a fallback sequence has nothing to switch to: when the due time is reached the timer action fails on None "
+           "instead of delivering the timeout error to the subscriber")
     rep.rule("X4-boundary-split", "take_with_time / skip_with_time arm the boundary timer before subscribing the source (same tie-break)", floor=2)
     from ..model import is_schedule_call as _isch
     for rel_, q_ in ((f"{O}_takewithtime.py", "take_with_time_.subscribe"), (f"{O}_skipwithtime.py", "skip_with_time_.subscribe")):
@@ -127,6 +136,30 @@ def check(repo: Repo, rep: Report) -> None:
     rep.rule("X3-fallback-survives", "the fallback subscription stored by the timer is never replaced by the late store of another subscription", floor=2)
     for rel_, q_ in ((f"{O}_timeout.py", "timeout_.subscribe"), (f"{O}_timeoutwithmapper.py", "timeout_with_mapper_.timeout_with_mapper.subscribe")):
         SY.rule_no_serial_clobber(rep, "X3-fallback-survives", repo.fn(rel_, q_))
+    # timeout_with_mapper: every source notification that still wins goes through one helper that advances the timer generation
+    tm = repo.fn(f"{O}_timeoutwithmapper.py", "timeout_with_mapper_.timeout_with_mapper.subscribe")
+    helpers = [g for g in tm.children if g.is_func and names_augmented(g, ast.Add)]
+    okh = len(helpers) == 1
+    if okh:
+        hp = helpers[0]
+        bump = [x for x in sites(hp) if isinstance(x.node, ast.AugAssign) and isinstance(x.node.op, ast.Add)]
+        # the bump is decided by `not switched` being true (directly, or through the local the helper returns)
+        def _neg_switched(e, p_):
+            from ..rules import effective_test
+            t_ = effective_test(hp, e) if isinstance(e, ast.Name) else e
+            if isinstance(t_, ast.UnaryOp) and isinstance(t_.op, ast.Not):
+                return p_
+            return (not p_) and isinstance(t_, (ast.Name, ast.Subscript)) and not (isinstance(e, ast.Name) and t_ is not e)
+        okh = bool(bump) and all(any(_neg_switched(e, p_) for e, p_ in b.ctx.guards) for b in bump)
+        for hn in ("on_next", "on_error", "on_completed"):
+            h_ = tm.child(hn)
+            downs_ = [x for g_, x, k_ in TC.downstream_sites(tm) if g_ is h_]
+            gated = h_ is not None and bool(downs_) and all(any(p_ and isinstance(e, ast.Call) and call_name(e) == hp.name for e, p_ in x.ctx.guards) for x in downs_)
+            rep.ob("X2-timeout-stale-guard", h_ or tm, f"timeout_with_mapper.{hn}: forwards only under {hp.name}()", gated,
+                   f"timeout_with_mapper: the source's {hn} is forwarded without going through the helper that invalidates the armed timeout")
+    rep.ob("X2-timeout-stale-guard", tm, "timeout_with_mapper: one helper advances the timer generation, under `not switched`", okh,
+           "timeout_with_mapper: a source notification that wins does not advance the timer generation (or advances it when it lost): the "
+           "timeout armed for an earlier element still fires after a newer element arrived")
     t = repo.fn(f"{O}_timeout.py", "timeout_.subscribe")
     act = t.find("create_timer.action")
     rep.require(act is not None, "timeout_ timer action")
@@ -167,7 +200,8 @@ def check(repo: Repo, rep: Report) -> None:
     rep.ob("X2-timeout-stale-guard", ct, "id captured when the timer is armed", bool(cap), "the timer does not remember which element it was armed for")
     for hn in ("on_next", "on_error", "on_completed"):
         h = t.child(hn)
-        bumps = [s for s in sites(h) if isinstance(s.node, ast.AugAssign) and cell_name(s.node.target) == idc]
+        bumps = [s for s in sites(h) if isinstance(s.node, ast.AugAssign) and cell_name(s.node.target) == idc
+                 and not (isinstance(s.node.value, ast.Constant) and s.node.value.value == 0)]
         downs = [s for g, s, k in TC.downstream_sites(t) if g is h]
         # the forwarding branch is decided by the switched cell being false (directly or through a local copy of `not switched`)
         def not_switched(e, p_, h=h):
